@@ -229,7 +229,10 @@ def set_counts(mps, cuts, aseed):
             assign = torch.repeat_interleave(torch.arange(P), torch.tensor(counts))
             assign = assign[torch.randperm(C, generator=g)]
             a[assign, torch.arange(C)] += 1.0
-            q.alpha.copy_(a * (1, 1, 4, 30)[aseed % 4])
+            a = a * (1, 1, 4, 30)[aseed % 4]
+            if (aseed // 4) % 3 == 2:
+                a = a - (a.max() + 0.25)          # every coefficient negative
+            q.alpha.copy_(a)
             k += 1
 
 
